@@ -4,7 +4,7 @@ CONSTANTS
   CandsId = "pair"
   NumChoices <- NC_all
   RunChoices <- RC_all
-  OtherChoices = {"sst", "label8", "label16", "bool", "err", "fnum", "fbool", "ferr", "fstr", "fshr", "blank"}
+  OtherChoices = {"sst", "label8", "label16", "label0", "bool", "err", "fnum", "fbool", "ferr", "fstr", "fempty", "fshr", "blank"}
   MaxCells = 2
   MaxRun = 2
   MaxIgn = 2
